@@ -139,6 +139,40 @@ SumUse       == LET RECURSIVE sum(_)
                 IN sum(DOMAIN use)
 JobErrs(r)   == {k \in {"import", "tag", "merge"} : r.st.jobs[k].err # ""}
 
+\* C12: what a restart must show, relative to the state the crashed process had acknowledged
+HasField(r, f) == f \in DOMAIN r
+TagsKeptFor(r, exp) ==
+    \A t \in DOMAIN exp :
+        /\ t \in DOMAIN tags
+        /\ tags[t].def = DefOf(exp[t].def)
+        /\ tags[t].convs = S(exp[t].convs)
+        /\ r.st.tags[t].color = exp[t].color
+\* expTags: the tag table the last COMPLETE state file held at the kill; a state file cut short that still
+\* parses counts as complete, so the table at the kill itself (pre.tags) is an allowed outcome too
+TagsKept(r) ==
+    \/ TagsKeptFor(r, IF HasField(r, "expTags") THEN r.expTags ELSE <<>>)
+    \/ (HasField(r, "pre") /\ TagsKeptFor(r, r.pre.tags))
+StreamsKept(r) ==
+    HasField(r, "preVis") =>
+        \A e \in EntrySet(r.preVis) : \E e2 \in ObsVis(r) : e2[1] = e[1] /\ e2[2] = e[2] /\ e[3] \subseteq e2[3]
+
+\* did the restart stack the surviving index files in another order than the crashed process served them in?
+Reordered(r) ==
+    HasField(r, "order") /\ HasField(r, "pre") /\
+    LET a == r.pre.indexes
+        b == r.order
+        pos(s, x) == CHOOSE i \in DOMAIN s : s[i] = x
+        common == Range(a) \cap Range(b)
+    IN \E x, y \in common : pos(a, x) < pos(a, y) /\ pos(b, x) > pos(b, y)
+
+\* after a kill: were all stale cache entries queued for re-conversion when the process died?
+StaleWerePending(r) ==
+    HasField(r, "pre") /\
+    LET stale(c) == {x[1] : x \in {y \in cache[c] : \E e \in Visible(indexes) : e[1] = y[1] /\ e[3] # y[2]}}
+        queued(c) == (IF c \in DOMAIN r.pre.toConv THEN S(r.pre.toConv[c]) ELSE {})
+                     \cup (IF c \in DOMAIN r.pre.jobs.conv.ids THEN S(r.pre.jobs.conv.ids[c]) ELSE {})
+    IN \A c \in DOMAIN cache : stale(c) \subseteq queued(c)
+
 Props ==
     \/ l = 0
     \/ LET r == Trace[l]
@@ -175,10 +209,17 @@ Props ==
        /\ Chk(GraphWellFormed, r, "C11.GraphWellFormed")
        /\ Chk(\A t \in DOMAIN tags : t \in DOMAIN r.obs.infos /\ r.obs.infos[t].referenced = (tags[t].refBy # {}), r, "C11.ReferencedMirrors")
        \* ---- C16
-       /\ Chk(ConvFresh, r, "C16.ConvFresh")
+       /\ ChkI(ConvFresh, r, "C16.ConvFresh", IF r.ev.a = "CrashRestart" /\ StaleWerePending(r) THEN "pending" ELSE "")
        /\ Chk(~flags.conv => ConvFresh, r, "C16.ConvFreshAtRest")
        /\ Chk(ConvEventually, r, "C16.ConvEventually")
        /\ Chk(r.noViewConvert => DetachStops, r, "C16.DetachStops")
+       \* ---- C12 (first row of a crash-restart trace: a new Manager was opened on a copy of the data directory)
+       /\ r.ev.a = "CrashRestart" =>
+            /\ Chk(TagsKept(r), r, "C12.TagsKept")
+            /\ ChkI(StreamsKept(r), r, "C12.StreamsKept", IF Reordered(r) THEN "reordered" ELSE "")
+            /\ (indexes = (IF HasField(r, "order") THEN r.order ELSE <<>>)) \/ Say("nonconf", r, "restart-order")
+       /\ r.last => Chk(Settled, r, "C12.Converges")
+       /\ (r.last /\ DOMAIN truth = DOMAIN tags) => Chk(NeverStaleFor(tags, vis, truth), r, "C12.ConvergesCorrect")
        \* ---- C09
        /\ Chk(FlagsMatchJobs, r, "C09.FlagsMatchJobs")
        /\ Chk(NeverStuck, r, "C09.Stuck")
